@@ -11,19 +11,21 @@ import pandas as pd
 import core
 
 REQUIRED_THEOREMS = [
-    'C20_row_routing', 'C20_row_routing_pk', 'C20_row_routing_pd_partial', 'C20_ids_nodup',
-    'C20_row_in_own_trace', 'C20_pd_nonnumeric_id_counterexample',
-    'C20_pdpredictive_default_nan_counterexample', 'C20_prediction_scatter', 'C20_simulation',
-    'C20_prediction_dose', 'C20_band_encloses_any', 'C20_band_encloses', 'C20_band_encloses_robust',
-    'C20_band_limits_are_samples', 'C20_band_nested', 'C20_band_ordered', 'C20_polygon_decode',
-    'C20_prediction_bands', 'C20_no_mutation', 'C20_residual_completes_partial',
+    'C20_row_routing', 'C20_row_routing_pd', 'C20_row_routing_pk', 'C20_row_routing_sound',
+    'C20_row_routing_pd_legacy_partial', 'C20_ids_nodup', 'C20_row_in_own_trace',
+    'C20_pd_nonnumeric_id_counterexample', 'C20_pdpredictive_default_nan_counterexample',
+    'C20_prediction_scatter', 'C20_simulation', 'C20_prediction_dose', 'C20_band_encloses_any',
+    'C20_band_encloses', 'C20_band_encloses_robust', 'C20_band_limits_are_samples', 'C20_band_nested',
+    'C20_band_ordered', 'C20_polygon_decode', 'C20_prediction_bands', 'C20_no_mutation',
+    'C20_residual_routing', 'C20_residual_completes', 'C20_residual_legacy_partial',
     'C20_residual_readonly_counterexample']
 RULE = ('routing: long-format frames with 1-5 individuals (IDs int / float / str, some missing), 1-3 '
         'observables, interleaved rows, dose rows, missing values in every column, custom column keys, '
         'shuffled index, default / explicit / absent observable, all four figure classes + add_simulation; '
         'bands: 1-4 times, 1-48 samples per time on a coarse grid (ties) or continuous, missing samples, '
-        '1-7 bulk probabilities (dyadic, customary, random); residuals: measurement + prediction frames, '
-        'all flag combinations. non-trivial = >=2 individuals and >=2 observables (routing) / a tie or a '
+        '1-7 bulk probabilities (dyadic, customary, random); residuals: measurement + prediction frames (IDs '
+        'int / float / str / missing, missing times, integer-valued measurements, unmeasured observables), '
+        'all flag combinations, every trace compared with an independent computation. non-trivial = >=2 individuals and >=2 observables (routing) / a tie or a '
         'missing limit (bands); distinct = distinct (class, id kind, shape class)')
 ASSUMPTIONS = ['the figure is observed through the public show() with a recording plotly renderer '
                '(the x / y arrays of the traces, their axes, names and hover texts)',
@@ -151,7 +153,7 @@ def gen_frame(rng, force=None):
         ids = [str(v) for v in rng.choice(['a', 'b7', 'pat 3', '11', 'x-1', 'Z', '007'], n_ids, replace=False)]
     n_obs = int(rng.integers(1, 4))
     obs = [str(v) for v in rng.choice(['conc', 'tumour', 'c(t)', 'bm 2', 'A'], n_obs, replace=False)]
-    p_miss = float(rng.choice([0.0, 0.0, 0.1]))
+    p_miss = float(rng.choice([0.0, 0.0, 0.1, 0.25]))
     rows = []
     tgrid = np.arange(0, 33) * 0.25
     for i in ids:
@@ -364,13 +366,7 @@ def routing_case(ctx, chi, fr, observable_mode, k, observable=_UNSET):
         if pk:
             variants = [ctx.model('C20.pk_add_data', w, obs_code)]
         else:
-            # how `x in column.unique()` treats the missing marker depends on the column's dtype
-            nan_in = df[keys['obs_key']].dtype.kind != 'f'
-            # the code as it is (`%d` names; PDPredictivePlot without dropna), then the variant the
-            # property demands (DESIGN 4: a repaired chi must match `intended`, nothing else)
-            variants = [ctx.model('C20.pd_add_data', True, name == 'PDTimeSeriesPlot', nan_in, w, numeric,
-                                  obs_code),
-                        ctx.model('C20.pd_add_data', False, True, True, w, numeric, obs_code)]
+            variants = [ctx.model('C20.pd_add_data', w, obs_code)]
         ctx.branches.add('%s:%s' % (name, status))
         tag = 'C20.row_routing/' + name
         trs = traces(fig) if status == 'ok' else []
@@ -407,9 +403,6 @@ def routing_case(ctx, chi, fr, observable_mode, k, observable=_UNSET):
         pairs = [corr(mo) for mo in variants]
         chosen = next((pr for pr in pairs if core.close(pr[1], pr[2])), pairs[0])
         ctx.agree(chosen[0], chosen[1], chosen[2], inp)
-        if len(pairs) == 2 and not core.close(pairs[0][1], pairs[0][2]) and chosen is pairs[1]:
-            ctx.extra.setdefault('pd_variant_intended', 0)
-            ctx.extra['pd_variant_intended'] += 1
         if spec is None:
             continue       # nothing the property describes (no such observable): model comparison only
         # --- the property on the real figure
@@ -724,21 +717,33 @@ def band_errors(ctx, chi):
 # residuals
 # ----------------------------------------------------------------------------------------
 def gen_residual(rng):
-    id_kind = ['int', 'int', 'float', 'str'][int(rng.integers(4))]
-    n_ids = int(rng.integers(1, 4))
+    id_kind = ['int', 'int', 'float', 'str', 'str'][int(rng.integers(5))]
+    n_ids = int(rng.integers(1, 5))
     if id_kind == 'str':
-        ids = [str(v) for v in rng.choice(['a', 'b', 'c9', 'd'], n_ids, replace=False)]
+        ids = [str(v) for v in rng.choice(['a', 'b', 'c9', 'd', 'pat 1'], n_ids, replace=False)]
     elif id_kind == 'float':
-        ids = [float(v) for v in rng.choice(np.arange(1, 30), n_ids, replace=False)]
+        ids = [float(v) + float(rng.choice([0.0, 0.5])) for v in rng.choice(np.arange(1, 30), n_ids, replace=False)]
     else:
         ids = [int(v) for v in rng.choice(np.arange(1, 30), n_ids, replace=False)]
-    obs = ['conc', 'eff'][:int(rng.integers(1, 3))]
+    obs = ['conc', 'eff', 'bm 2'][:int(rng.integers(1, 4))]
     tgrid = [float(t) for t in np.arange(0, 8) * 0.5]
+    int_values = bool(rng.random() < 0.2)
     meas = []
     for i in ids:
         for o in obs:
-            for t in rng.choice(tgrid, int(rng.integers(1, 4)), replace=False):
-                meas.append([i, float(t), o, float(np.round(rng.uniform(0.5, 5.0), 3))])
+            if rng.random() < 0.15 and len(meas) > 0:
+                continue
+            for t in rng.choice(tgrid, int(rng.integers(1, 4)), replace=rng.random() < 0.25):
+                v = float(rng.integers(1, 9)) if int_values else float(np.round(rng.uniform(0.5, 5.0), 3))
+                meas.append([i, float(t), o, v])
+    if not meas:
+        meas.append([ids[0], 0.0, obs[0], 1.0])
+    if rng.random() < 0.15:
+        meas[int(rng.integers(len(meas)))][0] = None        # a measurement without ID
+    if rng.random() < 0.15:
+        meas[int(rng.integers(len(meas)))][1] = None        # a measurement without time
+    if rng.random() < 0.1:
+        meas[int(rng.integers(len(meas)))][2] = None        # a row without observable (e.g. a dose row)
     order = rng.permutation(len(meas))
     meas = [meas[int(j)] for j in order]
     pred = []
@@ -749,78 +754,144 @@ def gen_residual(rng):
                 continue         # no prediction for a measured time -> ValueError expected
             for _ in range(int(rng.integers(1, 5))):
                 pred.append([o, t, float(np.round(rng.uniform(0.5, 5.0), 3))])
-    if rng.random() < 0.2:
-        pred.append([obs[0], tgrid[0], None])
+    if rng.random() < 0.25:
+        pred.append([obs[0], tgrid[int(rng.integers(len(tgrid)))], None])
+    if rng.random() < 0.15:
+        pred.append([None, tgrid[0], 2.0])
     pred = [pred[int(j)] for j in rng.permutation(len(pred))]
     flags = [(True, False), (True, False), (False, False), (True, True), (False, True)][int(rng.integers(5))]
     om = rng.random()
     observable = None if om < 0.4 else (obs[int(rng.integers(len(obs)))] if om < 0.9 else 'nope')
     im = rng.random()
-    individual = None if im < 0.6 else (ids[int(rng.integers(len(ids)))] if im < 0.92 else
-                                        ('zz' if id_kind == 'str' else 999))
+    individual = None if im < 0.55 else (ids[int(rng.integers(len(ids)))] if im < 0.92 else
+                                         ('zz' if id_kind == 'str' else 999))
     keys = dict(KEYSETS[int(rng.choice([0, 0, 1]))])
     return {'id_kind': id_kind, 'meas': meas, 'pred': pred, 'flags': list(flags), 'observable': observable,
-            'individual': individual, 'keys': keys}
+            'individual': individual, 'keys': keys, 'int_values': int_values,
+            'index': [int(v) for v in rng.permutation(len(meas)) + 2] if rng.random() < 0.3 else None}
+
+
+def spec_residual(meas, pred, observable, individual, sres, srel):
+    """the figure ResidualPlot documents, by plain comprehension: per individual the mean prediction of the
+    observable at each measurement time (x) and the measurement / residual / relative residual (y)"""
+    if observable is None:
+        present = [r[0] for r in pred if r[0] is not None]
+        if not present:
+            return None
+        observable = present[0]
+    rows = [r for r in meas if r[2] is not None and r[2] == observable and
+            (individual is None or (r[0] is not None and same(r[0], individual)))]
+    ids = []
+    for r in rows:
+        if r[0] is not None and not any(same(r[0], i) for i in ids):
+            ids.append(r[0])
+    out = []
+    for i in ids:
+        xs, ys = [], []
+        for r in rows:
+            if r[0] is None or not same(r[0], i):
+                continue
+            vals = [q[2] for q in pred if q[0] is not None and q[0] == observable and q[2] is not None
+                    and r[1] is not None and q[1] == r[1]]
+            m = (math.fsum(vals) / len(vals)) if vals else float('nan')
+            y = r[3]
+            if sres:
+                y = y - m
+            if srel:
+                y = y / m
+            xs.append(m)
+            ys.append(y)
+        out.append((i, xs, ys))
+    return out
 
 
 def residual_case(ctx, chi, g, k):
     plots = _plots()
     keys = g['keys']
-    mdf = pd.DataFrame({keys['id_key']: [r[0] for r in g['meas']],
-                        keys['time_key']: pd.Series([r[1] for r in g['meas']], dtype='float64'),
-                        keys['obs_key']: [r[2] for r in g['meas']],
-                        keys['value_key']: pd.Series([r[3] for r in g['meas']], dtype='float64')})
-    pdf = pd.DataFrame({'T': pd.Series([r[1] for r in g['pred']], dtype='float64'),
-                        'O': [r[0] for r in g['pred']],
-                        'V': pd.Series([np.nan if r[2] is None else r[2] for r in g['pred']], dtype='float64')})
+    meas, pred = g['meas'], g['pred']
+    idcol = [np.nan if r[0] is None else r[0] for r in meas]
+    vals = [r[3] for r in meas]
+    mdf = pd.DataFrame({keys['id_key']: idcol,
+                        keys['time_key']: pd.Series([np.nan if r[1] is None else r[1] for r in meas],
+                                                    dtype='float64'),
+                        keys['obs_key']: [np.nan if r[2] is None else r[2] for r in meas],
+                        keys['value_key']: pd.Series([int(v) for v in vals], dtype='int64') if g.get('int_values')
+                        else pd.Series(vals, dtype='float64')})
+    if g.get('index') is not None:
+        mdf.index = g['index']
+    pdf = pd.DataFrame({'T': pd.Series([r[1] for r in pred], dtype='float64'),
+                        'O': [np.nan if r[0] is None else r[0] for r in pred],
+                        'V': pd.Series([np.nan if r[2] is None else r[2] for r in pred], dtype='float64')})
+    # the frames as stored (an ID column with a missing entry turns integers into floats)
+    sid = [None if missing(v) else v for v in mdf[keys['id_key']].tolist()]
+    smeas = [[sid[j], meas[j][1], meas[j][2], float(meas[j][3])] for j in range(len(meas))]
+    individual = g['individual']
     inp = {'kind': 'residual', 'k': k, 'gen': g}
     sres, srel = g['flags']
     ctx.case('residual:%s/res%d/rel%d' % (g['id_kind'], sres, srel),
-             nontrivial='residual:%s/%d%d/%s/%s' % (g['id_kind'], sres, srel, g['observable'] is None,
-                                                    g['individual'] is None), sample=inp)
-    idc, idt = codes([r[0] for r in g['meas']])
-    obc, obt = codes([r[2] for r in g['meas']] + [r[0] for r in g['pred']])
-    nm = len(g['meas'])
-    wm = [[idc[j], obc[j], bits(r[1]), r[3]] for j, r in enumerate(g['meas'])]
-    wp = [[obc[nm + j], bits(r[1]), r[2]] for j, r in enumerate(g['pred'])]
-    numeric = [j for j, v in enumerate(idt) if isinstance(v, numbers.Real)]
+             nontrivial='residual:%s/%d%d/%s/%s/ids%d' % (g['id_kind'], sres, srel, g['observable'] is None,
+                                                          individual is None, min(3, len(set(map(str, sid))))),
+             sample=inp)
+    idc, idt = codes([r[0] for r in smeas] + [individual])
+    idc = idc[:-1]
+    obc, obt = codes([r[2] for r in smeas] + [r[0] for r in pred])
+    nm = len(smeas)
+    wm = [[idc[j], obc[j], None if r[1] is None else bits(r[1]), r[3]] for j, r in enumerate(smeas)]
+    wp = [[obc[nm + j], bits(r[1]), r[2]] for j, r in enumerate(pred)]
     oc = None if g['observable'] is None else (obt.index(g['observable']) if g['observable'] in obt else len(obt))
-    ic = None if g['individual'] is None else (idt.index(g['individual']) if g['individual'] in idt else len(idt))
+    ic = None if individual is None else [j for j, v in enumerate(idt) if same(v, individual)][0]
     box = {}
 
     def go():
         box['fig'] = plots.ResidualPlot(mdf, id_key=keys['id_key'], time_key=keys['time_key'],
                                         obs_key=keys['obs_key'], value_key=keys['value_key'])
-        box['fig'].add_data(pdf, observable=g['observable'], individual=g['individual'],
+        box['fig'].add_data(pdf, observable=g['observable'], individual=individual,
                             show_residuals=sres, show_relative=srel, time_key='T', obs_key='O', value_key='V')
     status, _ = call_plot(ctx, 'ResidualPlot.add_data', mdf, go, inp, others=[pdf])
-    # variants: (in-place arithmetic on a read-only array, `%d` names) = the code as it is ... (False, False) =
-    # out-of-place arithmetic, `%s` names = what a repaired chi must match
-    variants = {(ro, fl): ctx.model('C20.residual', ro, fl, numeric, wm, wp, oc, ic, sres, srel)
-                for ro in (True, False) for fl in (True, False)}
-    intended = variants[(False, False)]
+    mo = ctx.model('C20.residual', wm, wp, oc, ic, sres, srel)
     ctx.branches.add('residual:%s' % status)
+    if status != 'ok' or mo[0] != 'ok':
+        ctx.agree('C20.residual', status, mo[0], inp)
+        if mo[0] == 'ok':
+            # the out-of-place computation is defined, the real call raised
+            ctx.spec('C20.residual_plot/inplace_readonly' if status == 'err:valueError' and (sres or srel)
+                     else 'C20.residual_routing', False, inp, {'raised': status})
+        return
+    trs = traces(box['fig'])
 
-    def canon(trs):
-        return [[[None if (v is None or math.isnan(v)) else v for v in t['x']],
-                 [None if (v is None or math.isnan(v)) else v for v in t['y']]] for t in trs]
-    got = canon(traces(box['fig'])) if status == 'ok' else status
+    def nn(v):
+        return None if (v is None or (isinstance(v, float) and math.isnan(v))) else v
 
-    def matches(mo):
-        if status == 'ok':
-            return mo[0] == 'ok' and core.close(got, [[t[1], t[2]] for t in mo[1]])
-        return mo[0] == status
-    which = [key for key in ((True, True), (False, True), (True, False), (False, False)) if matches(variants[key])]
-    # chi must be one of the modelled variants
-    ctx.agree('C20.residual', True, bool(which), {**inp, 'chi': got, 'legacy': variants[(True, True)],
-                                                  'intended': intended})
-    # the figure exists whenever the out-of-place computation is defined
-    if intended[0] == 'ok':
-        why = 'C20.residual_plot/inplace_readonly'
-        if status == 'err:typeError' and g['id_kind'] == 'str':
-            why = 'C20.row_routing/pd_id_format'
-        ctx.spec(why, bool(matches(intended)), inp,
-                 {'chi': got, 'expected': [[t[1], t[2]] for t in intended[1]]})
+    def pairs(xs, ys):
+        if len(xs) != len(ys):
+            return ['length-mismatch', len(xs), len(ys)]
+        return sorted([[nn(a), nn(b)] for a, b in zip(xs, ys)], key=lambda q: (q[0] is None, q[0] or 0.0,
+                                                                              q[1] is None, q[1] or 0.0))
+    # --- the property on the real figure, against the independent comprehension
+    spec = spec_residual(smeas, pred, g['observable'], individual, sres, srel)
+    ok = spec is not None
+    detail = {'traces': [(t['name'], t['x'], t['y']) for t in trs]}
+    a = None
+    if ok:
+        a = assign(trs, [i for i, _, _ in spec])
+        ok = a is not None
+    if ok:
+        idx, rest = a
+        for (i, xs, ys), kk in zip(spec, idx):
+            if not core.close(pairs(trs[kk]['x'], trs[kk]['y']), pairs(xs, ys), 1e-9):
+                ok = False
+                detail['individual'] = i
+                detail['expected'] = [xs, ys]
+        if any(len(trs[kk]['x']) or len(trs[kk]['y']) for kk in rest):
+            ok = False
+            detail['extra_nonempty_trace'] = True
+    ctx.spec('C20.residual_routing', ok, inp, detail)
+    # --- correspondence with the model (traces in order; the model's spec twin against the comprehension)
+    ctx.agree('C20.residual', [[pairs(t['x'], t['y'])] for t in trs],
+              [[pairs(t[1], t[2])] for t in mo[1]], inp)
+    if spec is not None and mo[2] is not None:
+        ctx.agree('C20.residual_spec_twin', [pairs(xs, ys) for _, xs, ys in spec],
+                  [pairs(t[1], t[2]) for t in mo[2] if t[0] is not None], inp)
 
 
 # ----------------------------------------------------------------------------------------
@@ -828,19 +899,19 @@ def corpus(ctx, chi):
     # witnesses of the counterexample theorems
     fr = {'id_kind': 'str', 'rows': [['a', 1.0, 'conc', 2.0, None, None]], 'keys': dict(KEYSETS[0]),
           'index': None, 'time_int': False, 'extra_col': False}
-    routing_case(ctx, chi, fr, 'default', 0)
+    ctx.guard(routing_case, ctx, chi, fr, 'default', 0)
     fr = {'id_kind': 'int', 'rows': [[0, 0.0, None, None, 5.0, 0.0], [0, 1.0, 'conc', 2.0, None, None]],
           'keys': dict(KEYSETS[0]), 'index': None, 'time_int': False, 'extra_col': False}
-    routing_case(ctx, chi, fr, 'default', 0)
+    ctx.guard(routing_case, ctx, chi, fr, 'default', 0)
     g = {'id_kind': 'int', 'meas': [[0, 1.0, 'conc', 5.0]], 'pred': [['conc', 1.0, 3.0]],
          'flags': [True, False], 'observable': None, 'individual': None, 'keys': dict(KEYSETS[0])}
-    residual_case(ctx, chi, g, 0)
+    ctx.guard(residual_case, ctx, chi, g, 0)
     # ties at the thresholds: n = 4, p = 1/2 -> rank(min) = 1/4 = lower exactly
     g = {'rows': [[0.0, 'main', x] for x in (1.0, 2.0, 3.0, 4.0)] + [[1.0, 'main', x] for x in (1.0, 1.0, 2.0, 2.0)],
          'doses': [[0.0, 1.0, 0.01]], 'ps': [0.5, 0.2, 0.9], 'mode': 'corpus', 'keys': dict(KEYSETS[0]),
          'index': None}
-    band_case(ctx, chi, g, 0)
-    band_errors(ctx, chi)
+    ctx.guard(band_case, ctx, chi, g, 0)
+    ctx.guard(band_errors, ctx, chi)
 
 
 def run_one(ctx, chi, kind, k):
@@ -848,17 +919,17 @@ def run_one(ctx, chi, kind, k):
     if kind == 'routing':
         fr = gen_frame(rng)
         mode = ['default', 'default', 'explicit', 'explicit', 'absent'][int(rng.integers(5))]
-        routing_case(ctx, chi, fr, mode, k)
+        ctx.guard(routing_case, ctx, chi, fr, mode, k)
     elif kind == 'band':
-        band_case(ctx, chi, gen_samples(rng), k)
+        ctx.guard(band_case, ctx, chi, gen_samples(rng), k)
     else:
-        residual_case(ctx, chi, gen_residual(rng), k)
+        ctx.guard(residual_case, ctx, chi, gen_residual(rng), k)
 
 
 def run(ctx):
     chi = core.import_chi()
     corpus(ctx, chi)
-    n = {'quick': (70, 45, 50), 'thorough': (1200, 750, 600)}[ctx.tier]
+    n = {'quick': (100, 65, 90), 'thorough': (1650, 1000, 1500)}[ctx.tier]
     for k in range(n[0]):
         run_one(ctx, chi, 'routing', k)
     for k in range(n[1]):
